@@ -85,3 +85,126 @@ func (cv *bfCover) count() (n int) {
 	}
 	return
 }
+
+// ---- CAST5: instrumented copy (key schedule + encryption) counting S-box indices; its ciphertext is
+// compared with the real package in gen, so a wrong copy cannot report coverage silently.
+type c5Cover struct{ hit [8][256]bool }
+
+func (cv *c5Cover) s(k int, i uint32) uint32 {
+	cv.hit[k][i&0xff] = true
+	return c5S[k][i&0xff]
+}
+
+func (cv *c5Cover) encrypt(key []byte, src []byte) (out [8]byte) {
+	var t [8]uint32
+	var k [32]uint32
+	for i := 0; i < 4; i++ {
+		t[i] = uint32(key[4*i])<<24 | uint32(key[4*i+1])<<16 | uint32(key[4*i+2])<<8 | uint32(key[4*i+3])
+	}
+	by := func(i uint8) uint32 { return (t[i>>2] >> (24 - 8*(i&3))) & 0xff }
+	x := []int{6, 7, 4, 5}
+	ki := 0
+	for half := 0; half < 2; half++ {
+		for _, rnd := range c5Sched {
+			for j := 0; j < 4; j++ {
+				a := rnd.a[j]
+				w := t[a[1]]
+				w ^= cv.s(4, by(a[2])) ^ cv.s(5, by(a[3])) ^ cv.s(6, by(a[4])) ^ cv.s(7, by(a[5]))
+				w ^= cv.s(x[j], by(a[6]))
+				t[a[0]] = w
+			}
+			for j := 0; j < 4; j++ {
+				b := rnd.b[j]
+				w := cv.s(4, by(b[0])) ^ cv.s(5, by(b[1])) ^ cv.s(6, by(b[2])) ^ cv.s(7, by(b[3]))
+				w ^= cv.s(4+j, by(b[4]))
+				k[ki] = w
+				ki++
+			}
+		}
+	}
+	rotl := func(v uint32, r uint32) uint32 { r &= 31; return v<<r | v>>((32-r)&31) }
+	l := uint32(src[0])<<24 | uint32(src[1])<<16 | uint32(src[2])<<8 | uint32(src[3])
+	r := uint32(src[4])<<24 | uint32(src[5])<<16 | uint32(src[6])<<8 | uint32(src[7])
+	for i := 0; i < 16; i++ {
+		m, rot := k[i], k[16+i]&0x1f
+		var f uint32
+		switch i % 3 {
+		case 0:
+			I := rotl(m+r, rot)
+			f = ((cv.s(0, I>>24) ^ cv.s(1, I>>16)) - cv.s(2, I>>8)) + cv.s(3, I)
+		case 1:
+			I := rotl(m^r, rot)
+			f = ((cv.s(0, I>>24) - cv.s(1, I>>16)) + cv.s(2, I>>8)) ^ cv.s(3, I)
+		case 2:
+			I := rotl(m-r, rot)
+			f = ((cv.s(0, I>>24) + cv.s(1, I>>16)) ^ cv.s(2, I>>8)) - cv.s(3, I)
+		}
+		l, r = r, l^f
+	}
+	out = [8]byte{byte(r >> 24), byte(r >> 16), byte(r >> 8), byte(r), byte(l >> 24), byte(l >> 16), byte(l >> 8), byte(l)}
+	return
+}
+
+func count256(h [256]bool) (n int) {
+	for _, b := range h {
+		if b {
+			n++
+		}
+	}
+	return
+}
+
+// ---- RC2 key expansion: instrumented copy counting PITABLE indices; returns the 64 key words so that
+// gen can validate the copy against the real cipher (first mixing round of Encrypt is enough to bind it,
+// gen compares a full block through rc2Encrypt).
+type rc2Cover struct{ hit [256]bool }
+
+func (cv *rc2Cover) pi(i byte) byte { cv.hit[i] = true; return rc2Pi[i] }
+
+func (cv *rc2Cover) expand(key []byte, t1 int) (k [64]uint16) {
+	l := make([]byte, 128)
+	copy(l, key)
+	t := len(key)
+	t8 := (t1 + 7) / 8
+	tm := byte(255 % uint(1<<(8+uint(t1)-8*uint(t8))))
+	for i := t; i < 128; i++ {
+		l[i] = cv.pi(l[i-1] + l[uint8(i-t)])
+	}
+	l[128-t8] = cv.pi(l[128-t8] & tm)
+	for i := 127 - t8; i >= 0; i-- {
+		l[i] = cv.pi(l[i+1] ^ l[i+t8])
+	}
+	for i := range k {
+		k[i] = uint16(l[2*i]) + uint16(l[2*i+1])*256
+	}
+	return
+}
+
+func rc2Encrypt(k [64]uint16, src []byte) (out [8]byte) {
+	r := [4]uint16{uint16(src[0]) | uint16(src[1])<<8, uint16(src[2]) | uint16(src[3])<<8, uint16(src[4]) | uint16(src[5])<<8, uint16(src[6]) | uint16(src[7])<<8}
+	rot := [4]uint{1, 2, 3, 5}
+	j := 0
+	mix := func() {
+		for i := 0; i < 4; i++ {
+			a, b, c := r[(i+3)%4], r[(i+2)%4], r[(i+1)%4]
+			v := r[i] + k[j] + (a & b) + (^a & c)
+			r[i] = v<<rot[i] | v>>(16-rot[i])
+			j++
+		}
+	}
+	mash := func() {
+		for i := 0; i < 4; i++ {
+			r[i] += k[r[(i+3)%4]&63]
+		}
+	}
+	for n := 0; n < 16; n++ {
+		mix()
+		if n == 4 || n == 10 {
+			mash()
+		}
+	}
+	for i := 0; i < 4; i++ {
+		out[2*i], out[2*i+1] = byte(r[i]), byte(r[i]>>8)
+	}
+	return
+}
